@@ -52,6 +52,7 @@ type c13Obs struct {
 	States   []string
 	LogNames []string
 	Before   []string
+	Restarts map[string]int // restart counter per listed process when the request returned
 	TracePos int
 	RetPos   int
 }
@@ -119,7 +120,8 @@ func c13Scenarios(tier string) []*Scenario {
 		for _, init := range []int{1, 2} {
 			for _, h := range hist {
 				h := h
-				if wbeh != "daemon" && (len(h) > 1 || (tier != "thorough" && h[0].n > 3 && h[0].n != 10)) {
+				downUp := wbeh == "backoff" && len(h) == 2 && h[0].n == 1 && h[0].n < init && h[1].n >= 2 && h[1].n <= 3
+				if wbeh != "daemon" && !downUp && (len(h) > 1 || (tier != "thorough" && h[0].n > 3 && h[0].n != 10)) {
 					continue
 				}
 				var ids []string
@@ -202,6 +204,12 @@ func c13Scenarios(tier string) []*Scenario {
 							o.Err = err.Error()
 						}
 						o.Names, o.Infos, o.States, o.LogNames = c13Observe(w)
+						o.Restarts = map[string]int{}
+						if st, err := w.Runner.GetProcessesState(); err == nil {
+							for _, s := range st.States {
+								o.Restarts[s.Name] = s.Restarts
+							}
+						}
 						w.mu.Lock()
 						o.RetPos = len(w.trace)
 						obs, _ := w.Extra["c13"].([]*c13Obs)
@@ -273,6 +281,12 @@ func c13Check(w *World, init int, wbeh string) []Violation {
 		if strings.Join(refNames, ",") != strings.Join(o.Names, ",") {
 			vs = append(vs, viol("C13", "names:"+class, "after scale %d->%d the processes are %v, a fresh load with replicas %d has %v", prev, o.N, o.Names, o.N, refNames))
 			continue
+		}
+		for i := prev; i < o.N && prev >= 1; i++ {
+			name := refReplicaName("w", o.N, i)
+			if n, ok := o.Restarts[name]; ok && n != 0 {
+				vs = append(vs, viol("C13", "added-state:restarts", "replica %s added by scale %d->%d starts with a restart count of %d", name, prev, o.N, n))
+			}
 		}
 		if strings.Join(o.States, ",") != strings.Join(refNames, ",") {
 			vs = append(vs, viol("C13", "state-listing:"+class, "after scale %d->%d GetProcessesState lists %v, want %v", prev, o.N, o.States, refNames))
